@@ -15,6 +15,11 @@ CHECKS = {
     technique="TLA+ model checking (TLC on ChannelImpl) + TLC trace validation of exhaustive implementation exploration against ChannelObs (writer-region / reader-region disjointness rules)",
     text="Same runs as C01, judged by the writer-side rules of ChannelObs: a granted write region lies inside the buffer and contains no byte any joined reader still has to see (mapped or unconsumed); a mapped reader region is re-read just before unmap and must be unchanged.",
     note="Trusted: as C01."),
+ "C03": dict(
+    category="model_checking", design_ref="DESIGN.md section 6 (C03), section 15",
+    technique="TLA+ model checking (TLC: safety invariants incl. NoLostWakeup and liveness under weak fairness on ChannelConc) bound to channel.c by exact replay of exported thread schedules under a deterministic scheduler and by TLC trace validation (ChannelObs) of seeded random/PCT/starvation schedules with a deadlock/livelock oracle",
+    text="ChannelConc runs the sequential channel operators under explicit lock/condition-variable control, one action per run-to-next-scheduling-point; TLC checks exhaustively that a sleeping writer always has a notify on its way (NoLostWakeup) and, under fairness, that it resumes, finishes, and is released by a refusal even when readers have stalled for good. Simulated behaviours are exported as schedules and replayed step by step on the real channel.c under the deterministic scheduler (scheduling point + cursors compared after every step); thousands of seeded schedules with stalling/holding/partial readers and a controller refusing writes at a scheduler-chosen instant are run with a hang oracle, every trace judged by ChannelObs.",
+    note="Trusted: TLC; the deterministic scheduler's model of lock/cv semantics (platform.c's pthread wrappers are bypassed); sequentially consistent byte-sized flag accesses; readers eventually unmap; exhaustive for capacity 3(-4), <=2 readers, <=3 writes, <=2 toggles."),
 }
 
 def main():
